@@ -39,6 +39,12 @@ class PM(PlainBase):
     s: S[str] = set()
     n: O[PN1]
 
+class Z0(MetadataSchema):
+    pass
+
+class PZ0(PlainBase):
+    pass
+
 class PlainPartials(PartialFactory):
     base_model = PlainBase
 
